@@ -27,6 +27,7 @@ KNOWN = {
     "F-C04-8": "[dependencies.<name>] sub-tables are not visited",
     "F-C04-9": "trailing whitespace hides a go.mod require line",
     "F-C04-10": "flow-style step mappings are not visited",
+    "F-C04-14": "TOML quoted keys are not read",
 }
 
 
@@ -59,6 +60,9 @@ def explain(eco, deps, L, extra, missing):
                 m = (e[0], e[1].split("/")[0], e[2])
                 if m in missing:
                     known.add("F-C04-2"); extra.remove(e); missing.remove(m)
+    if eco in ("crates", "pypi") and L.get("qkey"):
+        for m in list(missing):
+            known.add("F-C04-14"); missing.remove(m)
     if eco == "crates":
         forms = {(d[1], d[3]): (d[0], d[2]) for d in deps}
         for e in list(extra):
@@ -97,7 +101,7 @@ def streams(ctx):
     docs = []
     for eco in ECOS:
         for _ in range(n_r):
-            docs.append((eco, gen_manifest.manifest(rng, eco)[2], "rendered"))
+            docs.append((eco, gen_manifest.manifest(rng, eco, qkey=rng.chance(1, 16))[2], "rendered"))
         k = 0
         for t in fuzzgen.documents(rng, eco, n_m):
             if len(t) < 2500 and k < n_m + 400:
@@ -142,8 +146,8 @@ def streams(ctx):
     cb, meta = [], []
     for eco in ECOS:
         for _ in range(n_b):
-            deps, L, text, decl = gen_manifest.manifest(rng, eco)
-            L2, text2, decl2 = gen_manifest.rerender(rng, eco, deps)
+            deps, L, text, decl = gen_manifest.manifest(rng, eco, qkey=rng.chance(1, 16))
+            L2, text2, decl2 = gen_manifest.rerender(rng, eco, deps, qkey=rng.chance(1, 16))
             cb.append({"req": vlib.line("l.parse", eco, text), "eco": eco, "tag": None}); meta.append((eco, deps, L, text, decl, "first"))
             cb.append({"req": vlib.line("l.parse", eco, text2), "eco": eco, "tag": None}); meta.append((eco, deps, L2, text2, decl2, "rerendered"))
 
@@ -152,7 +156,8 @@ def streams(ctx):
         # the premise of the layout theorems (c04_npm_layout_invariant, c04_deno_layout_invariant, c04_cargo_layout_invariant_norm) on REAL trees: a manifest and
         # its re-rendering under another layout (escaped spellings included) read as the same abstract JSON
         # (the renderer's "nonascii" option edits the manifest's own name VALUE: pairs that differ in it are left out)
-        pairs = [i for i in range(0, len(meta) - 1, 2) if meta[i][0] in ("npm", "jsr", "crates", "pypi") and meta[i][2]["nonascii"] == meta[i + 1][2]["nonascii"]]
+        pairs = [i for i in range(0, len(meta) - 1, 2) if meta[i][0] in ("npm", "jsr", "crates", "pypi") and meta[i][2]["nonascii"] == meta[i + 1][2]["nonascii"]
+                 and bool(meta[i][2].get("qkey")) == bool(meta[i + 1][2].get("qkey"))]      # (a quoted key reads as `other`: finding F-C04-14)
         cap, per = (60 if quick else 1500), {}
         pairs = [i for i in pairs if per.setdefault(meta[i][0], []).append(i) or len(per[meta[i][0]]) <= cap]      # per format
         idxs = [j for i in pairs for j in (i, i + 1)]
@@ -198,7 +203,13 @@ def streams(ctx):
          ("F-C04-1", "npm", '{"dependencies":{"a":"workspace:*","b":"file:../x","c":"git+https://github.com/a/b.git#v1","d":"1.0.0"}}', [("d", "1.0.0", None)]),
          ("F-C04-2", "jsr", '{"imports":{"x":"jsr:@luca/flag@^1.0.1/sub/mod.ts"}}', [("@luca/flag", "^1.0.1", None)]),
          ("F-C04-3", "crates", "[dependencies]\nserde = '1.0'\n", [("serde", "1.0", None)]),
-         ("F-C04-9", "go", "require (\n\texample.com/m v1.2.3 \n)\n", [("example.com/m", "v1.2.3", None)])]
+         ("F-C04-9", "go", "require (\n\texample.com/m v1.2.3 \n)\n", [("example.com/m", "v1.2.3", None)]),
+         ("F-C04-12", "gha", "jobs:\n  b:\n    steps:\n      - uses: docker://alpine@sha256:" + "0123456789abcdef" * 4 + "\n      - uses: ./.github/actions/x@v1\n"
+                             "      - uses: docker://ghcr.io/o/i:1\n      - uses: actions/checkout@v4\n", [("actions/checkout", "v4", None)]),
+         ("F-C04-13", "jsr", '// deno.jsonc\n{"imports": {"a": "jsr:@std/path@1.0.0"}}', [("@std/path", "1.0.0", None)]),
+         ("F-C04-13", "jsr", '/* c */ {\n // d\n"imports": { /* e */ "a": "jsr:@std/path@1.0.0", // f\n "b": "jsr:@std/fs@^2.0.0" }}', [("@std/path", "1.0.0", None), ("@std/fs", "^2.0.0", None)]),
+         ("F-C04-14", "crates", "[dependencies]\n\"serde\" = \"1.0.0\"\n", [("serde", "1.0.0", None)]),
+         ("F-C04-14", "pypi", "[project]\n\"dependencies\" = [\"requests>=2.0\"]\n", [("requests", ">=2.0", None)])]
     cw = [{"req": vlib.line("l.parse", eco, text), "eco": eco, "tag": ("witness", kid)} for kid, eco, text, _ in W]
 
     def derive_w(cs, impl):
